@@ -249,3 +249,61 @@ Print Assumptions C03_register_frame_accounts.
 Theorem C03_empty_password_locks : forall pw pw', hd 0 pw = 0 -> verify (gen pw) pw' = false.
 Proof. exact gen_empty_locks. Qed.
 Print Assumptions C03_empty_password_locks.
+
+(* ================================================================== ids are ASCII alphanumerics; the index built from .PASSWDS
+   (Proofs/C03_loader.v).  [ascii_letter ch] = 65..90 or 97..122; [ascii_alnum ch] = that or 48..57.
+   [indexed pre inv recs] = the loader's choice (cache/uhash_loader.go userecRawAddToUHash), record by record: true = put
+   into the user-id index; [pre] = PRE_ALLOCATED_USERS, [inv] = its counter of ill-formed ids so far. [ninv l] = number of
+   records of l whose id is not well-formed (free slots). [lookup_ix ix sl] / [find_empty_ix ix sl] = the lookups as an index
+   holding only the records marked in [ix] can answer them. [accounts_only sl] = every slot is free or holds a well-formed id. *)
+
+(* "2-12 alphanumerics, leading letter" means ASCII: a well-formed id has 2..IDLEN bytes, each an ASCII letter or digit (so
+   below 0x80), the first an ASCII letter. An id containing any byte >= 0x80 - Big5 or Latin-1 text - is not well-formed. *)
+Theorem C03_valid_id_is_ascii : forall name, id_valid name = true ->
+  (2 <= length (cid name) <= Z.to_nat ptttype.IDLEN)%nat /\ ascii_letter (hd 0 (cid name)) /\
+  (forall ch, In ch (cid name) -> ascii_alnum ch /\ ch < 128).
+Proof. exact valid_id_ascii. Qed.
+Print Assumptions C03_valid_id_is_ascii.
+
+(* every request that names an id that is not well-formed - register, login, password check, password change, e-mail
+   change, exists, get-user - is refused and leaves the whole state as it is; at the bbs layer ... *)
+Theorem C03_malformed_id_refused : forall c o name, op_name o = Some name -> id_valid name = false ->
+  (exists e, fst (step c o) = RErr e) /\ snd (step c o) = c.
+Proof. exact malformed_id_refused. Qed.
+Print Assumptions C03_malformed_id_refused.
+
+(* ... and through the gin handlers *)
+Theorem C03_malformed_id_refused_api : forall c o name, op_name o = Some name -> id_valid name = false ->
+  (exists e, fst (api_step c o) = RErr e) /\ snd (api_step c o) = c.
+Proof. exact malformed_id_refused_api. Qed.
+Print Assumptions C03_malformed_id_refused_api.
+
+(* the loader, exactly: record k of the file is put into the index iff its id is well-formed, or it is among the first
+   [pre] records whose id is not (the free slots kept for new registrations) - for every file, of any length *)
+Theorem C03_loader_index_exact : forall pre recs inv k a, nth_error recs k = Some a ->
+  nth_error (indexed pre inv recs) k = Some (id_valid (a_id a) || (inv + ninv (firstn (S k) recs) <=? pre)%nat).
+Proof. exact indexed_exact. Qed.
+Print Assumptions C03_loader_index_exact.
+
+(* hence no account is left out of the index, however many free records precede it in .PASSWDS *)
+Theorem C03_loader_keeps_accounts : forall pre recs k a, nth_error recs k = Some a -> id_valid (a_id a) = true ->
+  nth_error (indexed pre 0 recs) k = Some true.
+Proof. exact loader_keeps_accounts. Qed.
+Print Assumptions C03_loader_keeps_accounts.
+
+(* after a server start, on a table of accounts of any size, the index answers every lookup as the table does and offers
+   the table's first free slot to a registration (one pre-allocated slot suffices): the operations of the model, which
+   read the table, are the operations on the index *)
+Theorem C03_index_after_load : forall pre sl, (0 < pre)%nat -> accounts_only sl ->
+  (forall id, lookup_ix (indexed pre 0 sl) sl id = lookup sl id) /\
+  find_empty_ix (indexed pre 0 sl) sl = find_empty sl.
+Proof. exact index_after_load. Qed.
+Print Assumptions C03_index_after_load.
+
+(* in particular every account of .PASSWDS, wherever it is stored, is answered with its own slot after a server start:
+   it can be looked up, logs in with its password (C03_login_exact) and its id is taken (C03_register_exact) *)
+Theorem C03_account_found_after_load : forall pre c k a, (0 < pre)%nat -> WF c -> accounts_only (slots c) ->
+  nth_error (slots c) k = Some a -> a_id a <> [] ->
+  lookup_ix (indexed pre 0 (slots c)) (slots c) (a_id a) = Some k.
+Proof. exact account_found_after_load. Qed.
+Print Assumptions C03_account_found_after_load.
